@@ -69,13 +69,22 @@ def _geometry(layout, m, off):
     return h["x"][off:off + m].astype(float), h["y"][off:off + m].astype(float)
 
 
-def case_interpolate(ctx, layout, m, off, free, ns=2):
+def case_interpolate(ctx, layout, m, off, free, ns=2, run=False):
     import ibldsp.voltage as v
     x, y = _geometry(layout, m, off)
     labels = [ctx.int(f"label{i}", 0, 3) for i in range(m)]
     lo_free = (m - free) // 2
+    if run:
+        # one run of adjacent bad channels [start, start + length) of symbolic position, length and kind (dead / noisy);
+        # long runs leave their inner channels without any good channel in reach
+        start = ctx.int("run_start", 0, m - 1)
+        length = ctx.int("run_length", 1, m)
+        kind = ctx.int("run_kind", 1, 2)
+        ctx.assume(start + length <= m)
+        for i in range(m):
+            ctx.assume(core.eq(labels[i], ite(and_(start <= i, i < start + length), kind, 0)))
     for i in range(m):
-        if not lo_free <= i < lo_free + free:
+        if not run and not lo_free <= i < lo_free + free:
             # sites around the free window are good or outside-brain (still symbolic), so that the window has real neighbours
             ctx.assume(or_(core.eq(labels[i], 0), core.eq(labels[i], 3)))
     rows = [[ctx.real(f"d{i}_{t}") for t in range(ns)] for i in range(m)]
@@ -219,6 +228,8 @@ def cases(tier):
     for lay in b["layouts"]:
         for off in b["offsets"]:
             cs.append(Case(f"interp_{lay}_m{b['m']}_off{off}", "case_interpolate", {"layout": lay, "m": b["m"], "off": off, "free": b["free"]}, timeout_s=3000, max_paths=300000))
+    for lay, mm in ([("np1", 20)] if tier == "quick" else [("np1", 24), ("np2", 20), ("np24", 20)]):
+        cs.append(Case(f"interp_{lay}_run_of_bad_m{mm}", "case_interpolate", {"layout": lay, "m": mm, "off": 0, "free": 0, "run": True, "ns": 1}, timeout_s=3000, max_paths=300000))
     cs.append(Case("mode_2ch_3batches", "case_mode", {"nch": 2, "n_batches": 3}))
     cs.append(Case("mode_2ch_4batches", "case_mode", {"nch": 2, "n_batches": 4}))
     cs.append(Case("mode_1ch_5batches", "case_mode", {"nch": 1, "n_batches": 5}))
@@ -236,6 +247,7 @@ def twins(tier):
         Twin("bad_neighbours_contribute", m, "        weights[bad_channels] = 0\n", "        weights[i] = 0\n", ic),
         Twin("interpolates_outside_too", m, "np.logical_or(channel_labels == 1, channel_labels == 2)", "np.logical_or(channel_labels == 1, channel_labels >= 2)", ic),
         Twin("all_rows_times_weights", m, "data[i, :] = gp.matmul(weights[imult], data[imult, :])", "data[i, :] = gp.matmul(weights[imult], data[imult, :]) * 2", ic),
+        Twin("no_neighbour_left_untouched", m, "        if imult.size == 0:\n            data[i, :] = 0\n            continue\n", "        if imult.size == 0:\n            continue\n", ["interp_np1_run_of_bad_m20", "interp_np1_run_of_bad_m24"]),
         Twin("not_normalised", m, "        weights = weights / gp.sum(weights)\n", "        weights = weights / 1.0\n", ic),
         Twin("mode_over_channels", m, "channel_flags, _ = scipy.stats.mode(channel_labels, axis=1)", "channel_flags, _ = scipy.stats.mode(channel_labels.T, axis=1)", ["mode_2ch_3batches"]),
         Twin("last_batch_ignored", m, "channel_flags, _ = scipy.stats.mode(channel_labels, axis=1)", "channel_flags, _ = scipy.stats.mode(channel_labels[:, :-1], axis=1)", ["mode_2ch_3batches"]),
